@@ -201,9 +201,11 @@ class Fn:
         if k == "CallExpr":
             ks = kids(n); callee = ks[0]
             while callee["kind"] in ("ImplicitCastExpr", "ParenExpr"): callee = kids(callee)[0]
-            if callee["kind"] != "DeclRefExpr" or callee["referencedDecl"].get("kind") != "FunctionDecl": raise Unsupported("callee")
-            rd = callee["referencedDecl"]; name = call_name(rd["name"], rd["type"]["qualType"])
-            self.calls.add((rd["name"], rd["type"]["qualType"], name))
+            if callee["kind"] != "DeclRefExpr" or callee["referencedDecl"].get("kind") not in ("FunctionDecl", "CXXMethodDecl"): raise Unsupported("callee")
+            rd = callee["referencedDecl"]
+            owner = AST_OWNER.get(rd["id"], "") if rd.get("kind") == "CXXMethodDecl" else ""       # a static member function called without an object
+            name = call_name((owner + "__" if owner else "") + rd["name"], rd["type"]["qualType"])
+            self.calls.add((rd["id"], rd["name"], rd["type"]["qualType"], name))
             args = [self.expr(a) for a in ks[1:]]
             if len(args) == 1: return "ECall1 %s (%s)" % (coq_str(name), args[0])
             if len(args) == 2: return "ECall2 %s (%s) (%s)" % (coq_str(name), args[0], args[1])
@@ -454,7 +456,24 @@ def indent(term, ind="  "):
 
 CLASSES = [("BitArrayT", (13,)), ("BitArrayT", (300,)), ("StreamBufferT", (100,)), ("BitWriteStreamT", (100,)), ("BitReadStreamT", (100,))]
 
+AST_OWNER = {}      # id of a member function -> label of the class template specialisation it belongs to
+AST_NODE = {}       # id -> node (function declarations only)
+def index_ast(ast):
+    AST_OWNER.clear(); AST_NODE.clear()
+    def go(n, owner):
+        k = n.get("kind")
+        if k == "ClassTemplateSpecializationDecl" and n.get("name"):
+            owner = "%s_%s" % (n["name"], "_".join(targ_id(a) for a in targ_values(n)))
+        if k in ("FunctionDecl", "CXXMethodDecl") and "id" in n:
+            AST_NODE.setdefault(n["id"], n)
+            if body_of(n) or n["id"] not in AST_NODE or not body_of(AST_NODE[n["id"]]): AST_NODE[n["id"]] = n
+            if owner: AST_OWNER[n["id"]] = owner
+        for c in n.get("inner", []):
+            if c: go(c, owner)
+    go(ast, "")
+
 def translate(ast):
+    index_ast(ast)
     defs = []; notes = []; calls = set(); names = []
     def emit_method(cname, fd, consts, label):
         try:
@@ -494,31 +513,33 @@ def translate(ast):
             label = "%s__%s%s" % (prefix, OPNAMES.get(mname, ident(mname)), "".join("_" + targ_id(a) for a in margs))
             if label in names: label += "_const" if " const" in fd["type"]["qualType"] else "_2"
             emit_method(cname, fd, consts, label)
-    # free functions: everything called, plus bitWidth
-    wanted = {("bitWidth", None)} | {(n, s) for n, s, _ in calls}
-    fns = []
-    done = set()
-    progress = True
-    while progress:
-        progress = False
-        for n in walk(ast):
-            if n.get("kind") == "FunctionDecl" and body_of(n) and n.get("name") in {w[0] for w in wanted}:
-                sig = n["type"]["qualType"]
-                if (n["name"], sig) not in wanted and (n["name"], None) not in wanted: continue
-                cn = call_name(n["name"], sig)
-                if cn in done: continue
-                if any("dependent" in json.dumps(c.get("type", {})) for c in params_of(n)): continue
-                done.add(cn); progress = True
-                ks = kids(body_of(n))
-                try:
-                    if len(ks) != 1 or ks[0]["kind"] != "ReturnStmt": raise Unsupported("the body is not a single return statement")
-                    f = Fn(params_of(n), set())
-                    e = f.expr(kids(ks[0])[0])
-                    for c in f.calls: wanted.add((c[0], c[1]))
-                    fns.append((cn, "Definition fn_%s : fundef :=\n  {| fn_params := [%s];\n     fn_body :=\n%s |}." % (ident(cn), "; ".join(coq_str(p) for p in f.params), indent(e))))
-                except Unsupported as ex:
-                    fns.append((cn, "Definition fn_%s : fundef := {| fn_params := []; fn_body := EConst \"UNSUPPORTED\" |}.   (* %s *)" % (ident(cn), ex)))
-                    notes.append("%s: %s" % (cn, ex))
+    # free functions and static member functions: everything called, plus bitWidth
+    queue = [c for c in calls]
+    for n in walk(ast):
+        if n.get("kind") == "FunctionDecl" and n.get("name") == "bitWidth" and body_of(n): queue.append((n["id"], "bitWidth", n["type"]["qualType"], call_name("bitWidth", n["type"]["qualType"])))
+    fns = []; done = set()
+    while queue:
+        fid, fname, sig, cn = queue.pop(0)
+        if cn in done: continue
+        done.add(cn)
+        n = AST_NODE.get(fid)
+        if n is None or not body_of(n):
+            # the declaration referred to has no body of its own: another declaration of the same function in the same class / namespace has
+            owner = AST_OWNER.get(fid, "")
+            cands = [m for m in AST_NODE.values() if m.get("name") == fname and body_of(m) and m["type"]["qualType"] == sig and AST_OWNER.get(m["id"], "") == owner]
+            n = cands[0] if cands else None
+        try:
+            if n is None: raise Unsupported("no definition found")
+            if n.get("kind") == "CXXMethodDecl" and n.get("storageClass") != "static": raise Unsupported("call of a non-static member function")
+            ks = kids(body_of(n))
+            if len(ks) != 1 or ks[0]["kind"] != "ReturnStmt": raise Unsupported("the body is not a single return statement")
+            f = Fn(params_of(n), set())
+            e = f.expr(kids(ks[0])[0])
+            queue.extend(f.calls)
+            fns.append((cn, "Definition fn_%s : fundef :=\n  {| fn_params := [%s];\n     fn_body :=\n%s |}." % (ident(cn), "; ".join(coq_str(p) for p in f.params), indent(e))))
+        except Unsupported as ex:
+            fns.append((cn, "Definition fn_%s : fundef := {| fn_params := []; fn_body := EConst \"UNSUPPORTED\" |}.   (* %s *)" % (ident(cn), ex)))
+            notes.append("%s: %s" % (cn, ex))
     fns.sort()
     table = "Definition leaf_ftable : ftable := [\n%s\n]." % ";\n".join("  (%s, fn_%s)" % (coq_str(cn), ident(cn)) for cn, _ in fns)
     return [f for _, f in fns] + [table] + defs, notes, names
